@@ -428,7 +428,7 @@ FACETS = [
           shards={"quick": 2, "thorough": 6}, min_nontrivial={"quick": 200, "thorough": 2000}),
     Facet("weighted", guarded("weighted", with_env(check_prefix_kind)), strategy=lambda tier: WEI, budget={"quick": 1000, "thorough": 12000},
           shards={"quick": 2, "thorough": 6}, min_nontrivial={"quick": 200, "thorough": 2000}),
-    Facet("process-group", check_process_group, strategy=lambda tier: GROUP, budget={"quick": 64, "thorough": 300},
+    Facet("process-group", check_process_group, strategy=lambda tier: GROUP, budget={"quick": 128, "thorough": 300},
           shards={"quick": 8, "thorough": 12}, min_nontrivial={"quick": 20, "thorough": 100}, case_timeout=300),
     Facet("random-sampler-repeats", check_random_sampler, strategy=lambda tier: RAND, budget={"quick": 400, "thorough": 4000},
           shards={"quick": 1, "thorough": 2}, min_nontrivial={"quick": 100, "thorough": 1000}),
